@@ -1,4 +1,5 @@
 (* Proofs for property C13 (model: Attrs/Model.v). *)
+From Coq Require Import String.
 From DJC Require Import Lib.Base Attrs.Model.
 From DJC Require Gen.C13.
 Local Open Scope N_scope.
@@ -22,6 +23,19 @@ Example escape_anchor :
   map fst Gen.C13.escape_table = [34; 38; 39; 60; 62] /\
   forallb (fun p => str_eqb (escape1 (fst p)) (snd p)) Gen.C13.escape_table = true.
 Proof. split; reflexivity. Qed.
+
+(* the name check of attributes_to_string: the character class, as pattern text and as the set of code points below
+   U+3000 the compiled regex matches (the harness checks on every run that nothing above U+3000 matches), and the
+   order / wording of the tests in the loop (skip None / False; refuse unless SafeData or non-empty and clean; True bare) *)
+Example name_pattern_anchor : Gen.C13.invalid_name_pattern = s2n "[\x00-\x20\x7f-\x9f""'>/=&<]"%string.
+Proof. reflexivity. Qed.
+Example name_class_anchor :
+  forallb (fun c => Bool.eqb (name_char_ok c) (negb (existsb (N.eqb c) Gen.C13.invalid_name_chars)))
+          (map N.of_nat (seq 0 12288)) = true.
+Proof. vm_compute. reflexivity. Qed.
+Example name_check_anchor : Gen.C13.name_check_tests =
+  s2n "value is None or value is False ;; not isinstance(key, SafeData) and (not str(key) or _INVALID_ATTR_NAME_RE.search(str(key))) ;; value is True"%string.
+Proof. reflexivity. Qed.
 
 (* ================================================================================================ *)
 (* escape / decode                                                                                  *)
@@ -179,15 +193,34 @@ Proof. intros []; constructor. Qed.
 Lemma owed_next_ready A acc : after A -> owed (next_ready A) acc = finish A acc.
 Proof. intros []; reflexivity. Qed.
 
+Definition valued (v : aval) : bool := match v with VNone | VFalse | VTrue => false | _ => true end.
+
+(* one emitted entry with a plain key, a valid name and a non-safe value *)
 Lemma item_guard k v : rendered v = true -> valid_name k = true -> not_safe v = true ->
-  (v = VTrue /\ render_item (k, v) = Some k /\ expected_item (k, v) = Some (map lower_ascii k, None)) \/
-  (render_item (k, v) = Some (k ++ [61; 34] ++ escape (text_of v) ++ [34]) /\
-   expected_item (k, v) = Some (map lower_ascii k, Some (text_of v))).
+  (v = VTrue /\ render_item ((k, false), v) = Some k /\ expected_item ((k, false), v) = Some (map lower_ascii k, None)) \/
+  (render_item ((k, false), v) = Some (k ++ [61; 34] ++ escape (text_of v) ++ [34]) /\
+   expected_item ((k, false), v) = Some (map lower_ascii k, Some (text_of v))).
 Proof.
   intros Hr Hk Hs. assert (Ek : escape k = k).
   { apply valid_name_escape. destruct k; [discriminate|exact Hk]. }
-  destruct v; try discriminate; cbn [render_item expected_item cesc text_of]; rewrite Ek; auto.
+  destruct v; try discriminate; cbn [render_item expected_item cesc kesc text_of fst snd]; rewrite Ek; auto.
 Qed.
+
+(* guard under which the text reads back: every emitted entry has a plain key with a valid name and a non-safe value *)
+Definition roundtrip_guard (d : list ((str * bool) * aval)) : bool :=
+  forallb (fun kv => negb (rendered (snd kv)) || (negb (snd (fst kv)) && valid_name (fst (fst kv)) && not_safe (snd kv))) d.
+
+Lemma guard_entry k v : rendered v = true ->
+  negb (rendered v) || (negb (snd k) && valid_name (fst k) && not_safe v) = true ->
+  exists n, k = (n, false) /\ valid_name n = true /\ not_safe v = true.
+Proof.
+  intros Hr H. rewrite Hr in H. cbn [negb orb] in H.
+  apply andb_true_iff in H as [H Hs]. apply andb_true_iff in H as [Hp Hk].
+  destruct k as [n [|]]; [discriminate|]. exists n. auto.
+Qed.
+
+Lemma not_rendered_item k v : rendered v = false -> render_item (k, v) = None /\ expected_item (k, v) = None.
+Proof. destruct v; try discriminate; split; reflexivity. Qed.
 
 (* the attributes that follow the first one: each preceded by one space *)
 Lemma tok_tail d : roundtrip_guard d = true -> forall A acc, after A ->
@@ -198,20 +231,20 @@ Proof.
   - cbn. destruct HA; cbn; now rewrite app_nil_r.
   - cbn [roundtrip_guard forallb fst snd] in G. apply andb_true_iff in G as [G1 G2].
     fold (roundtrip_guard d) in G2. unfold expected. cbn [map].
+    pose proof (fun H => guard_entry k v H G1) as GE.
     destruct (rendered v) eqn:Hr.
-    + cbn [negb orb] in G1. apply andb_true_iff in G1 as [Hk Hs].
-      destruct (item_guard k v Hr Hk Hs) as [(-> & Er & Ee)|(Er & Ee)]; rewrite Er, Ee;
+    + destruct (GE eq_refl) as (n & -> & Hk & Hs).
+      destruct (item_guard n v Hr Hk Hs) as [(-> & Er & Ee)|(Er & Ee)]; rewrite Er, Ee;
         cbn [filter_some flat_map app]; rewrite (tok_space A _ acc HA).
-      * rewrite (tok_bare k Hk _ _ acc (next_ready_ready A HA)).
+      * rewrite (tok_bare n Hk _ _ acc (next_ready_ready A HA)).
         rewrite (owed_next_ready A acc HA).
         fold (expected d). rewrite (IH G2 _ _ (after_name _)). cbn [finish rev].
         rewrite rev_involutive, <- app_assoc. reflexivity.
-      * rewrite (tok_valued k (text_of v) Hk _ _ acc (next_ready_ready A HA)).
+      * rewrite (tok_valued n (text_of v) Hk _ _ acc (next_ready_ready A HA)).
         rewrite (owed_next_ready A acc HA).
         fold (expected d). rewrite (IH G2 _ _ after_q). cbn [finish rev].
         rewrite <- app_assoc. reflexivity.
-    + assert (render_item (k, v) = None /\ expected_item (k, v) = None) as [Er Ee].
-      { destruct v; try discriminate; split; reflexivity. }
+    + destruct (not_rendered_item k v Hr) as [Er Ee].
       rewrite Er, Ee. cbn [filter_some]. fold (expected d). apply (IH G2 A acc HA).
 Qed.
 
@@ -221,38 +254,78 @@ Proof.
   change (join_sp (x :: y :: r)) with (x ++ 32 :: join_sp (y :: r)). rewrite IH. reflexivity.
 Qed.
 
-(* ROUND TRIP: every emitted attribute has a valid name and a non-safe value => the reader finds exactly
-   the names (lower-cased, as HTML reads them) and values given, in order, each once, nothing else. *)
-Lemma attrs_roundtrip_lemma d : roundtrip_guard d = true ->
-  parse_attrs (attributes_to_string d) = Parsed (expected d).
+Lemma ats_text_roundtrip d : roundtrip_guard d = true -> parse_attrs (ats_text d) = Parsed (expected d).
 Proof.
-  unfold parse_attrs, attributes_to_string.
+  unfold parse_attrs, ats_text.
   induction d as [|[k v] d IH]; intro G; [reflexivity|].
-  pose proof G as G0.
   cbn [roundtrip_guard forallb fst snd] in G. apply andb_true_iff in G as [G1 G2].
   fold (roundtrip_guard d) in G2. unfold expected. cbn [map].
+  pose proof (fun H => guard_entry k v H G1) as GE.
   destruct (rendered v) eqn:Hr.
-  - cbn [negb orb] in G1. apply andb_true_iff in G1 as [Hk Hs].
-    destruct (item_guard k v Hr Hk Hs) as [(-> & Er & Ee)|(Er & Ee)]; rewrite Er, Ee;
+  - destruct (GE eq_refl) as (n & -> & Hk & Hs).
+    destruct (item_guard n v Hr Hk Hs) as [(-> & Er & Ee)|(Er & Ee)]; rewrite Er, Ee;
       cbn [filter_some]; rewrite join_sp_cons.
-    + rewrite (tok_bare k Hk SBefore _ [] ready_before). cbn [owed].
+    + rewrite (tok_bare n Hk SBefore _ [] ready_before). cbn [owed].
       fold (expected d). rewrite (tok_tail d G2 _ _ (after_name _)). cbn [finish rev app].
       now rewrite rev_involutive.
-    + rewrite (tok_valued k (text_of v) Hk SBefore _ [] ready_before). cbn [owed].
+    + rewrite (tok_valued n (text_of v) Hk SBefore _ [] ready_before). cbn [owed].
       fold (expected d). rewrite (tok_tail d G2 _ _ after_q). reflexivity.
-  - assert (render_item (k, v) = None /\ expected_item (k, v) = None) as [Er Ee].
-    { destruct v; try discriminate; split; reflexivity. }
+  - destruct (not_rendered_item k v Hr) as [Er Ee].
     rewrite Er, Ee. cbn [filter_some]. fold (expected d). exact (IH G2).
 Qed.
 
-(* the guard is needed: a name with a space is read back as two attributes (html.parser agrees) *)
-Lemma attrs_roundtrip_names_refuted_lemma :
-  exists d, forallb (fun kv => not_safe (snd kv)) d = true /\
-            parse_attrs (attributes_to_string d) <> Parsed (expected d).
-Proof. exists [([97; 32; 98], VStr [118])]. split; [reflexivity|]. vm_compute. discriminate. Qed.
+(* what the code's own name check accepts, together with "no SafeString among what is emitted", is the guard *)
+Lemma names_ok_guard d : plain_emitted d = true -> names_ok d = true -> roundtrip_guard d = true.
+Proof.
+  unfold names_ok, roundtrip_guard, plain_emitted. induction d as [|[k v] d IH]; [reflexivity|].
+  cbn [forallb fst snd]. intros H1 H2. apply andb_true_iff in H1 as [A1 A2]. apply andb_true_iff in H2 as [B1 B2].
+  rewrite (IH A2 B2), andb_true_r. destruct (rendered v); cbn [negb orb] in *; [|reflexivity].
+  apply andb_true_iff in A1 as [P S]. unfold key_ok in B1. destruct (snd k); [discriminate P|].
+  cbn [orb negb andb] in *. now rewrite B1, S.
+Qed.
+
+(* REFUSAL, every dictionary (safe or not): ValueError exactly when some attribute that would be emitted has a
+   non-safe name that is empty or contains a character of the forbidden class *)
+Lemma attrs_refused_iff_lemma d :
+  attributes_to_string d = None <->
+  exists n v, In ((n, false), v) d /\ rendered v = true /\ valid_name n = false.
+Proof.
+  unfold attributes_to_string. destruct (names_ok d) eqn:E; split.
+  - discriminate.
+  - intros (n & v & I & R & V). exfalso. unfold names_ok in E. rewrite forallb_forall in E.
+    specialize (E _ I). cbn [fst snd] in E. rewrite R in E. unfold key_ok in E. cbn [fst snd negb orb] in E.
+    rewrite V in E. discriminate E.
+  - intros _. unfold names_ok in E. induction d as [|[k v] d IH]; [discriminate|].
+    cbn [forallb fst snd] in E. apply andb_false_iff in E as [E|E].
+    + destruct (rendered v) eqn:R; [|discriminate E]. cbn [negb orb] in E. unfold key_ok in E.
+      destruct k as [n [|]]; [discriminate E|]. cbn [fst snd orb] in E.
+      exists n, v. split; [left; reflexivity|]. split; assumption.
+    + destruct (IH E) as (n & v' & I & R). exists n, v'. split; [right; exact I|exact R].
+  - reflexivity.
+Qed.
+
+(* ROUND TRIP at full strength: whatever characters the non-safe names and values contain, either the text is
+   refused because an emitted name cannot be written as one attribute name, or it reads back exactly *)
+Lemma attrs_roundtrip_lemma d : plain_emitted d = true ->
+  match attributes_to_string d with
+  | Some out => parse_attrs out = Parsed (expected d)
+  | None => exists n v, In ((n, false), v) d /\ rendered v = true /\ valid_name n = false
+  end.
+Proof.
+  intro Hs. destruct (attributes_to_string d) as [out|] eqn:E.
+  - unfold attributes_to_string in E. destruct (names_ok d) eqn:N; [|discriminate E]. injection E as <-.
+    apply ats_text_roundtrip. exact (names_ok_guard d Hs N).
+  - apply attrs_refused_iff_lemma. exact E.
+Qed.
+
+(* the name check is needed: without it a name with a space is read back as two attributes (html.parser agrees);
+   this was the behaviour before commit c3ea7ff *)
+Lemma unchecked_names_do_not_roundtrip :
+  exists d, plain_emitted d = true /\ parse_attrs (ats_text d) <> Parsed (expected d).
+Proof. exists [(([97; 32; 98], false), VStr [118])]. split; [reflexivity|]. vm_compute. discriminate. Qed.
 
 (* names and number of the attributes read back depend on the names and kinds only, never on the values *)
-Definition shape (kv : str * aval) : str * option bool :=
+Definition shape (kv : (str * bool) * aval) : (str * bool) * option bool :=
   (fst kv, match snd kv with VNone | VFalse => None | VTrue => Some false | _ => Some true end).
 
 Lemma expected_names_shape d d' : map shape d = map shape d' ->
@@ -266,16 +339,80 @@ Proof.
   destruct v, v'; try discriminate; cbn [expected_item filter_some map fst snd]; split; congruence.
 Qed.
 
-Lemma cannot_break_out_lemma d d' :
-  roundtrip_guard d = true -> roundtrip_guard d' = true -> map shape d = map shape d' ->
-  exists l l', parse_attrs (attributes_to_string d) = Parsed l /\
-               parse_attrs (attributes_to_string d') = Parsed l' /\
-               map fst l = map fst l' /\ length l = length l'.
+Lemma names_ok_shape d d' : map shape d = map shape d' -> names_ok d = names_ok d'.
 Proof.
-  intros G G' H. exists (expected d), (expected d').
-  rewrite (attrs_roundtrip_lemma d G), (attrs_roundtrip_lemma d' G').
-  destruct (expected_names_shape d d' H) as [H1 _]. repeat split; try assumption.
+  revert d'. induction d as [|[k v] d IH]; intros [|[k' v'] d'] H; try discriminate; [reflexivity|].
+  cbn [map shape fst snd] in H. injection H as Hk Hv Hr. unfold names_ok in *. cbn [forallb fst snd].
+  rewrite (IH d' Hr). subst k'. f_equal. destruct v, v'; try discriminate; reflexivity.
+Qed.
+
+(* CANNOT BREAK OUT: two dictionaries with the same names and the same kinds of values (omitted / bare / valued)
+   are both refused or both emitted, and when emitted read back with the same names, the same number of attributes
+   and nothing outside the tag - whatever the value strings are *)
+Lemma cannot_break_out_lemma d d' :
+  plain_emitted d = true -> plain_emitted d' = true -> map shape d = map shape d' ->
+  match attributes_to_string d, attributes_to_string d' with
+  | Some out, Some out' =>
+      exists l l', parse_attrs out = Parsed l /\ parse_attrs out' = Parsed l' /\
+                   map fst l = map fst l' /\ length l = length l'
+  | None, None => True
+  | _, _ => False
+  end.
+Proof.
+  intros G G' H. pose proof (attrs_roundtrip_lemma d G) as R. pose proof (attrs_roundtrip_lemma d' G') as R'.
+  unfold attributes_to_string in *. rewrite <- (names_ok_shape d d' H) in *.
+  destruct (names_ok d); [|exact I].
+  exists (expected d), (expected d'). destruct (expected_names_shape d d' H) as [H1 _]. repeat split; try assumption.
   rewrite <- (map_length fst (expected d)), H1. apply map_length.
+Qed.
+
+(* NONE / FALSE OMITTED, TRUE BARE, in terms of what the reader finds: as many attributes as entries whose value is
+   not None / False; the bare ones are exactly the True entries, the valued ones exactly the other entries with the
+   text of their value *)
+Lemma in_expected d a : In a (expected d) <->
+  exists k v, In (k, v) d /\ rendered v = true /\ fst a = map lower_ascii (fst k) /\
+              snd a = if valued v then Some (text_of v) else None.
+Proof.
+  unfold expected. induction d as [|[k v] d IH]; cbn [map filter_some In].
+  - split; [intros []|intros (k & v & [] & _)].
+  - destruct (rendered v) eqn:R.
+    + assert (E : expected_item (k, v) = Some (map lower_ascii (fst k), if valued v then Some (text_of v) else None)).
+      { destruct v; try discriminate; reflexivity. }
+      rewrite E. cbn [filter_some In]. rewrite IH. split.
+      * intros [<-|(k' & v' & I & X)]; [exists k, v; cbn [fst snd]; auto|exists k', v'; split; [right; exact I|exact X]].
+      * intros (k' & v' & [I|I] & R' & F & S).
+        -- injection I as <- <-. left. destruct a as [a1 a2]. cbn [fst snd] in F, S. now subst.
+        -- right. exists k', v'. auto.
+    + destruct (not_rendered_item k v R) as [_ ->]. rewrite IH. split.
+      * intros (k' & v' & I & X). exists k', v'. split; [right; exact I|exact X].
+      * intros (k' & v' & [I|I] & R' & X); [injection I as <- <-; rewrite R in R'; discriminate|].
+        exists k', v'. auto.
+Qed.
+
+Lemma length_expected d : length (expected d) = length (filter (fun kv => rendered (snd kv)) d).
+Proof.
+  unfold expected. induction d as [|[k v] d IH]; [reflexivity|]. cbn [map filter snd].
+  destruct v; cbn [expected_item filter_some rendered length]; now rewrite IH.
+Qed.
+
+Lemma omitted_bare_lemma d out : plain_emitted d = true -> attributes_to_string d = Some out ->
+  exists l, parse_attrs out = Parsed l /\
+    length l = length (filter (fun kv => rendered (snd kv)) d) /\
+    (forall n, In (n, None) l <-> exists k, In (k, VTrue) d /\ n = map lower_ascii (fst k)) /\
+    (forall n t, In (n, Some t) l <->
+                 exists k v, In (k, v) d /\ valued v = true /\ n = map lower_ascii (fst k) /\ t = text_of v).
+Proof.
+  intros G E. pose proof (attrs_roundtrip_lemma d G) as R. rewrite E in R.
+  exists (expected d). split; [exact R|]. split; [apply length_expected|]. split.
+  - intro n. rewrite in_expected. cbn [fst snd]. split.
+    + intros (k & v & I & Rv & -> & S). exists k. split; [|reflexivity].
+      destruct v; try discriminate; exact I.
+    + intros (k & I & ->). exists k, VTrue. auto.
+  - intros n t. rewrite in_expected. cbn [fst snd]. split.
+    + intros (k & v & I & Rv & -> & S). exists k, v. destruct (valued v) eqn:V; [|discriminate S].
+      injection S as <-. auto.
+    + intros (k & v & I & V & -> & ->). exists k, v. rewrite V. repeat split; auto.
+      destruct v; try discriminate; reflexivity.
 Qed.
 
 (* ================================================================================================ *)
@@ -557,87 +694,42 @@ Qed.
 (* ================================================================================================ *)
 (* merge order: defaults, overridden by attrs, then every keyword value appended with one space     *)
 (* ================================================================================================ *)
-Fixpoint texts_for (k : str) (l : list (str * aval)) : list str :=
+(* all values given for a name, in order *)
+Fixpoint occ (k : str) (l : list ((str * bool) * aval)) : list aval :=
   match l with
   | [] => []
-  | (k', v) :: r => if str_eqb k k' then text_of v :: texts_for k r else texts_for k r
+  | (k', v) :: r => if str_eqb k (fst k') then v :: occ k r else occ k r
   end.
+
+(* what the statement prescribes for the values given for one name:
+   Some None = no such attribute; Some (Some v) = this value; None = TypeError (a non-string joined with " ") *)
+Definition merged_value (vs : list aval) : option (option aval) :=
+  match vs with
+  | [] => Some None
+  | [v] => Some (Some v)
+  | _ => if forallb is_strv vs then Some (Some (VStr (join_sp (map text_of vs)))) else None
+  end.
+
+Definition olist {A} (o : option A) : list A := match o with Some x => [x] | None => [] end.
+Definition keys_nodup (l : list ((str * bool) * aval)) : Prop := NoDup (map (fun kv => fst (fst kv)) l).
+Definition all_strv (l : list ((str * bool) * aval)) : Prop := forallb (fun kv => is_strv (snd kv)) l = true.
 Definition joined (l : list str) : option str := match l with [] => None | _ => Some (join_sp l) end.
-Definition all_strv (l : list (str * aval)) : Prop := forallb (fun kv => is_strv (snd kv)) l = true.
-Definition keys_nodup (l : list (str * aval)) : Prop := NoDup (map fst l).
+
+(* the accumulation the loop performs for one name, starting from what the result holds for it *)
+Fixpoint combine (o : option aval) (vs : list aval) : option (option aval) :=
+  match vs with
+  | [] => Some o
+  | v :: r => match o with
+              | None => combine (Some v) r
+              | Some old => match add_str old v with Some nv => combine (Some nv) r | None => None end
+              end
+  end.
 
 Lemma str_eqb_sym a b : str_eqb a b = str_eqb b a.
 Proof.
   destruct (str_eqb a b) eqn:E, (str_eqb b a) eqn:F; try reflexivity.
   - apply str_eqb_eq in E. subst. now rewrite str_eqb_refl in F.
   - apply str_eqb_eq in F. subst. now rewrite str_eqb_refl in E.
-Qed.
-
-Lemma texts_for_app k a b : texts_for k (a ++ b) = texts_for k a ++ texts_for k b.
-Proof.
-  induction a as [|[k' v] a IH]; [reflexivity|]. cbn [app texts_for].
-  destruct (str_eqb k k'); [cbn [app]; f_equal|]; exact IH.
-Qed.
-
-Lemma dget_none_keys k d : dget k d = None <-> ~ In k (map fst d).
-Proof.
-  induction d as [|[k' v] d IH]; cbn [dget map fst In]; [tauto|].
-  destruct (str_eqb k k') eqn:E.
-  - apply str_eqb_eq in E. subst. split; [discriminate|]. intro H. exfalso. apply H. left. reflexivity.
-  - rewrite IH. split; [|tauto]. intros H [F|F]; [|tauto]. subst. now rewrite str_eqb_refl in E.
-Qed.
-
-Lemma dget_none_texts k d : dget k d = None -> texts_for k d = [].
-Proof.
-  induction d as [|[k' v] d IH]; [reflexivity|]. cbn [dget texts_for].
-  destruct (str_eqb k k'); [discriminate|exact IH].
-Qed.
-
-Lemma dset_absent k v d : dget k d = None -> dset k v d = d ++ [(k, v)].
-Proof.
-  induction d as [|[k' v'] d IH]; [reflexivity|]. cbn [dget dset app].
-  destruct (str_eqb k k'); [discriminate|]. intro H. now rewrite (IH H).
-Qed.
-
-Lemma dset_present_keys k v d old : dget k d = Some old -> map fst (dset k v d) = map fst d.
-Proof.
-  induction d as [|[k' v'] d IH]; [discriminate|]. cbn [dget dset].
-  destruct (str_eqb k k'); [reflexivity|]. intro H. cbn [map fst]. now rewrite (IH H).
-Qed.
-
-Lemma dset_texts_other k k0 v d : str_eqb k k0 = false -> texts_for k (dset k0 v d) = texts_for k d.
-Proof.
-  intro N0. induction d as [|[k' v'] d IH]; cbn [dset texts_for].
-  - now rewrite N0.
-  - destruct (str_eqb k0 k') eqn:E.
-    + apply str_eqb_eq in E. subst k'. cbn [texts_for]. now rewrite N0.
-    + cbn [texts_for]. destruct (str_eqb k k'); [f_equal|]; exact IH.
-Qed.
-
-Lemma dset_texts_same k v d old : keys_nodup d -> dget k d = Some old ->
-  texts_for k d = [text_of old] /\ texts_for k (dset k v d) = [text_of v].
-Proof.
-  unfold keys_nodup. induction d as [|[k' v'] d IH]; [discriminate|].
-  cbn [map fst dget dset]. intros ND H. inversion ND as [|? ? Hn ND']; subst.
-  destruct (str_eqb k k') eqn:E.
-  - apply str_eqb_eq in E. subst k'. injection H as ->. cbn [texts_for]. rewrite str_eqb_refl.
-    apply dget_none_keys in Hn. rewrite (dget_none_texts _ _ Hn). split; reflexivity.
-  - cbn [texts_for]. rewrite E. exact (IH ND' H).
-Qed.
-
-Lemma all_strv_dset k v d : is_strv v = true -> all_strv d -> all_strv (dset k v d).
-Proof.
-  unfold all_strv. intro Hv. induction d as [|[k' v'] d IH]; cbn [dset forallb snd]; intro H.
-  - now rewrite Hv.
-  - apply andb_true_iff in H as [H1 H2]. destruct (str_eqb k k'); cbn [forallb snd].
-    + now rewrite Hv, H2.
-    + now rewrite H1, (IH H2).
-Qed.
-
-Lemma all_strv_dget k d v : all_strv d -> dget k d = Some v -> is_strv v = true.
-Proof.
-  unfold all_strv. induction d as [|[k' v'] d IH]; [discriminate|]. cbn [forallb snd dget]. intros H G.
-  apply andb_true_iff in H as [H1 H2]. destruct (str_eqb k k'); [now injection G as <-|exact (IH H2 G)].
 Qed.
 
 Lemma join_sp_merge a b t : join_sp ((a ++ 32 :: b) :: t) = join_sp (a :: b :: t).
@@ -649,6 +741,60 @@ Proof.
     now rewrite <- app_assoc.
 Qed.
 
+Lemma combine_str r : forall t,
+  combine (Some (VStr t)) r =
+  if forallb is_strv r then Some (Some (VStr (join_sp (t :: map text_of r)))) else None.
+Proof.
+  induction r as [|v r IH]; intro t; [reflexivity|].
+  cbn [combine forallb map]. unfold add_str. cbn [is_strv andb text_of].
+  destruct (is_strv v); cbn [andb]; [|reflexivity].
+  rewrite IH. destruct (forallb is_strv r); [|reflexivity]. now rewrite join_sp_merge.
+Qed.
+
+Lemma combine_none vs : combine None vs = merged_value vs.
+Proof.
+  destruct vs as [|v1 [|v2 r]]; [reflexivity|reflexivity|].
+  cbn [combine]. unfold add_str, merged_value.
+  change (forallb is_strv (v1 :: v2 :: r)) with (is_strv v1 && (is_strv v2 && forallb is_strv r)).
+  destruct (is_strv v1); cbn [andb]; [|reflexivity].
+  destruct (is_strv v2); cbn [andb]; [|reflexivity].
+  rewrite combine_str. destruct (forallb is_strv r); [|reflexivity].
+  cbn [map]. now rewrite join_sp_merge.
+Qed.
+
+Lemma occ_app k a b : occ k (a ++ b) = occ k a ++ occ k b.
+Proof.
+  induction a as [|[k' v] a IH]; [reflexivity|]. cbn [app occ].
+  destruct (str_eqb k (fst k')); [cbn [app]; f_equal|]; exact IH.
+Qed.
+
+Lemma dget_none_keys k d : dget k d = None <-> ~ In k (map (fun kv => fst (fst kv)) d).
+Proof.
+  induction d as [|[k' v] d IH]; cbn [dget map fst In]; [tauto|].
+  destruct (str_eqb k (fst k')) eqn:E.
+  - apply str_eqb_eq in E. subst. split; [discriminate|]. intro H. exfalso. apply H. left. reflexivity.
+  - rewrite IH. split; [|tauto]. intros H [F|F]; [|tauto]. subst. now rewrite str_eqb_refl in E.
+Qed.
+
+Lemma dget_none_occ k d : dget k d = None -> occ k d = [].
+Proof.
+  induction d as [|[k' v] d IH]; [reflexivity|]. cbn [dget occ].
+  destruct (str_eqb k (fst k')); [discriminate|exact IH].
+Qed.
+
+Lemma dset_absent k v d : dget (fst k) d = None -> dset k v d = d ++ [(k, v)].
+Proof.
+  induction d as [|[k' v'] d IH]; [reflexivity|]. cbn [dget dset app].
+  destruct (str_eqb (fst k) (fst k')); [discriminate|]. intro H. now rewrite (IH H).
+Qed.
+
+Lemma dset_present_keys k v d old : dget (fst k) d = Some old ->
+  map (fun kv => fst (fst kv)) (dset k v d) = map (fun kv => fst (fst kv)) d.
+Proof.
+  induction d as [|[k' v'] d IH]; [discriminate|]. cbn [dget dset].
+  destruct (str_eqb (fst k) (fst k')); [reflexivity|]. intro H. cbn [map fst]. now rewrite (IH H).
+Qed.
+
 Lemma NoDup_snoc {A} (l : list A) x : NoDup l -> ~ In x l -> NoDup (l ++ [x]).
 Proof.
   induction l as [|a l IH]; intros H Hx; [constructor; [intros []|constructor]|].
@@ -657,47 +803,67 @@ Proof.
   - apply IH; [exact Hl|]. intro K. apply Hx. right. exact K.
 Qed.
 
-(* append_attributes over string values: never fails, keeps one entry per key, and the text of every key is
-   all the texts given for that key, in order, joined by single spaces *)
-Lemma append_spec items : forall res, all_strv items -> all_strv res -> keys_nodup res ->
-  exists d, append_attributes items res = Some d /\ all_strv d /\ keys_nodup d /\
-            forall k, option_map text_of (dget k d) = joined (texts_for k (res ++ items)).
+Lemma dset_keys_nodup k v d : keys_nodup d -> keys_nodup (dset k v d).
 Proof.
-  induction items as [|[k0 v0] r IH]; intros res Hi Hr Hn.
-  - exists res. repeat split; auto. intro k. rewrite app_nil_r.
-    destruct (dget k res) as [old|] eqn:E.
-    + destruct (dset_texts_same k old res old Hn E) as [-> _]. reflexivity.
-    + now rewrite (dget_none_texts _ _ E).
-  - unfold all_strv in Hi. cbn [forallb snd] in Hi. apply andb_true_iff in Hi as [Hv0 Hi].
-    cbn [append_attributes]. destruct (dget k0 res) as [old|] eqn:E.
-    + pose proof (all_strv_dget _ _ _ Hr E) as Ho. unfold add_str. rewrite Ho, Hv0. cbn [andb].
-      set (nv := VStr (text_of old ++ 32 :: text_of v0)).
-      destruct (IH (dset k0 nv res) Hi (all_strv_dset k0 nv res eq_refl Hr)) as (d & D1 & D2 & D3 & D4).
-      { unfold keys_nodup. now rewrite (dset_present_keys k0 nv res old E). }
-      exists d. repeat split; auto. intro k. rewrite D4, !texts_for_app. cbn [texts_for].
-      destruct (str_eqb k k0) eqn:K.
-      * apply str_eqb_eq in K. subst k0.
-        destruct (dset_texts_same k nv res old Hn E) as [-> ->]. cbn [app text_of nv].
-        unfold joined. now rewrite join_sp_merge.
-      * now rewrite (dset_texts_other k k0 nv res K).
-    + destruct (IH (dset k0 v0 res) Hi (all_strv_dset k0 v0 res Hv0 Hr)) as (d & D1 & D2 & D3 & D4).
-      { unfold keys_nodup. rewrite (dset_absent _ _ _ E), map_app. cbn [map fst].
-        apply NoDup_snoc; [exact Hn | apply dget_none_keys; exact E]. }
-      exists d. repeat split; auto. intro k. rewrite D4, (dset_absent _ _ _ E), <- app_assoc. reflexivity.
+  intro H. destruct (dget (fst k) d) as [old|] eqn:E.
+  - unfold keys_nodup. now rewrite (dset_present_keys k v d old E).
+  - unfold keys_nodup. rewrite (dset_absent _ _ _ E), map_app. cbn [map fst].
+    apply NoDup_snoc; [exact H | apply dget_none_keys; exact E].
 Qed.
 
-Lemma dget_dset k k0 v d : dget k (dset k0 v d) = if str_eqb k k0 then Some v else dget k d.
+Lemma dget_dset k k0 v d : dget k (dset k0 v d) = if str_eqb k (fst k0) then Some v else dget k d.
 Proof.
   induction d as [|[k' v'] d IH]; cbn [dset dget]; [reflexivity|].
-  destruct (str_eqb k0 k') eqn:E; cbn [dget].
-  - apply str_eqb_eq in E. subst k'. destruct (str_eqb k k0); reflexivity.
-  - destruct (str_eqb k k') eqn:F; [|exact IH].
-    apply str_eqb_eq in F. subst k'. rewrite str_eqb_sym in E. now rewrite E.
+  destruct (str_eqb (fst k0) (fst k')) eqn:E; cbn [dget].
+  - apply str_eqb_eq in E. rewrite <- E. destruct (str_eqb k (fst k0)); reflexivity.
+  - destruct (str_eqb k (fst k')) eqn:F; [|exact IH].
+    apply str_eqb_eq in F. subst k. rewrite str_eqb_sym in E. now rewrite E.
 Qed.
 
 Lemma dget_app k a b : dget k (a ++ b) = match dget k a with Some v => Some v | None => dget k b end.
 Proof.
-  induction a as [|[k' v] a IH]; [reflexivity|]. cbn [app dget]. destruct (str_eqb k k'); [reflexivity|exact IH].
+  induction a as [|[k' v] a IH]; [reflexivity|]. cbn [app dget]. destruct (str_eqb k (fst k')); [reflexivity|exact IH].
+Qed.
+
+Lemma occ_nodup k d : keys_nodup d -> occ k d = olist (dget k d).
+Proof.
+  unfold keys_nodup. induction d as [|[k' v] d IH]; [reflexivity|].
+  cbn [map fst occ dget]. intro ND. inversion ND as [|? ? Hn ND']; subst.
+  destruct (str_eqb k (fst k')) eqn:E.
+  - apply str_eqb_eq in E. subst k. apply dget_none_keys in Hn. now rewrite (dget_none_occ _ _ Hn).
+  - exact (IH ND').
+Qed.
+
+(* append_attributes, every list of items and every kind of value: the result has one entry per name, and for
+   every name it holds what accumulating the values given for that name yields; it fails exactly when the
+   accumulation for some name fails *)
+Lemma append_combine items : forall res, keys_nodup res ->
+  match append_attributes items res with
+  | Some d => keys_nodup d /\ forall k, combine (dget k res) (occ k items) = Some (dget k d)
+  | None => exists k, combine (dget k res) (occ k items) = None
+  end.
+Proof.
+  induction items as [|[k0 v0] r IH]; intros res Hn.
+  - cbn [append_attributes]. split; [exact Hn|reflexivity].
+  - cbn [append_attributes]. destruct (dget (fst k0) res) as [old|] eqn:E.
+    + destruct (add_str old v0) as [nv|] eqn:A.
+      * specialize (IH (dset k0 nv res) (dset_keys_nodup k0 nv res Hn)).
+        assert (R : forall k, combine (dget k res) (occ k ((k0, v0) :: r))
+                              = combine (dget k (dset k0 nv res)) (occ k r)).
+        { intro k. cbn [occ]. rewrite dget_dset. destruct (str_eqb k (fst k0)) eqn:K; [|reflexivity].
+          apply str_eqb_eq in K. subst k. rewrite E. cbn [combine]. now rewrite A. }
+        destruct (append_attributes r (dset k0 nv res)) as [d|].
+        -- destruct IH as [I1 I2]. split; [exact I1|]. intro k. rewrite R. apply I2.
+        -- destruct IH as (k & I). exists k. now rewrite R.
+      * exists (fst k0). cbn [occ]. rewrite str_eqb_refl, E. cbn [combine]. now rewrite A.
+    + specialize (IH (dset k0 v0 res) (dset_keys_nodup k0 v0 res Hn)).
+      assert (R : forall k, combine (dget k res) (occ k ((k0, v0) :: r))
+                            = combine (dget k (dset k0 v0 res)) (occ k r)).
+      { intro k. cbn [occ]. rewrite dget_dset. destruct (str_eqb k (fst k0)) eqn:K; [|reflexivity].
+        apply str_eqb_eq in K. subst k. rewrite E. reflexivity. }
+      destruct (append_attributes r (dset k0 v0 res)) as [d|].
+      * destruct IH as [I1 I2]. split; [exact I1|]. intro k. rewrite R. apply I2.
+      * destruct IH as (k & I). exists k. now rewrite R.
 Qed.
 
 (* dict.update: the last binding of the update wins, otherwise the old value stays *)
@@ -706,81 +872,316 @@ Lemma dget_dupdate k u : forall d,
 Proof.
   unfold dupdate. induction u as [|[k1 v1] r IH]; intro d; [reflexivity|].
   cbn [fold_left fst snd rev]. rewrite IH, dget_app, dget_dset. cbn [dget].
-  destruct (dget k (rev r)); [reflexivity|]. destruct (str_eqb k k1); reflexivity.
+  destruct (dget k (rev r)); [reflexivity|]. cbn [fst]. destruct (str_eqb k (fst k1)); reflexivity.
 Qed.
 
-Lemma dset_keys_nodup k v d : keys_nodup d -> keys_nodup (dset k v d).
+Lemma dupdate_nodup u : forall d, keys_nodup d -> keys_nodup (dupdate d u).
 Proof.
-  intro H. destruct (dget k d) as [old|] eqn:E.
-  - unfold keys_nodup. now rewrite (dset_present_keys k v d old E).
-  - unfold keys_nodup. rewrite (dset_absent _ _ _ E), map_app. cbn [map fst].
-    apply NoDup_snoc; [exact H | apply dget_none_keys; exact E].
+  unfold dupdate. induction u as [|[k1 v1] r IH]; intros d H; [exact H|].
+  cbn [fold_left fst snd]. apply IH. apply dset_keys_nodup. exact H.
 Qed.
 
-Lemma dupdate_inv u : forall d, keys_nodup d -> all_strv d -> all_strv u ->
-  keys_nodup (dupdate d u) /\ all_strv (dupdate d u).
-Proof.
-  unfold dupdate. induction u as [|[k1 v1] r IH]; intros d H1 H2 H3; [split; assumption|].
-  unfold all_strv in H3. cbn [forallb snd] in H3. apply andb_true_iff in H3 as [Hv H3].
-  cbn [fold_left fst snd]. apply IH; [apply dset_keys_nodup; exact H1 | apply all_strv_dset; assumption | exact H3].
-Qed.
+(* the value `attrs` gives for a name, else the value `defaults` gives *)
+Definition base_val (attrs defaults : list ((str * bool) * aval)) (k : str) : option aval :=
+  match dget k (rev attrs) with Some v => Some v | None => dget k (rev defaults) end.
 
-Lemma all_strv_app a b : all_strv a -> all_strv b -> all_strv (a ++ b).
-Proof. unfold all_strv. intros. rewrite forallb_app. now apply andb_true_iff. Qed.
-
-Lemma texts_for_nodup k d : keys_nodup d ->
-  texts_for k d = match dget k d with Some v => [text_of v] | None => [] end.
-Proof.
-  intro H. destruct (dget k d) as [old|] eqn:E.
-  - now destruct (dset_texts_same k old d old H E) as [-> _].
-  - now apply dget_none_texts.
-Qed.
-
-(* MERGE ORDER, every overlap pattern: the attribute text for every name is the value from `attrs` if it has
-   the name, else from `defaults`, followed by every extra keyword value for that name, separated by single
-   spaces; one entry per name; no failure (string values). *)
+(* MERGE ORDER, every overlap pattern of names across defaults / attrs / extra keywords and every kind of value:
+   the merged dictionary has one entry per name, holding what the statement prescribes for
+   [value from attrs, else from defaults] followed by every extra keyword value of that name - the single value
+   itself (so None / False / True keep their meaning), or all of them joined by single spaces; a TypeError exactly
+   when some name would join a non-string. *)
 Lemma merge_order_lemma attrs defaults kwargs :
-  all_strv attrs -> all_strv defaults -> all_strv kwargs ->
-  exists d, append_attributes (dupdate (dupdate [] defaults) attrs ++ kwargs) [] = Some d /\
-            html_attrs attrs defaults kwargs = Some (attributes_to_string d) /\
-            keys_nodup d /\
-            forall k, option_map text_of (dget k d)
-                      = joined (match (match dget k (rev attrs) with Some v => Some v | None => dget k (rev defaults) end)
-                                with Some v => [text_of v] | None => [] end ++ texts_for k kwargs).
-Proof.
-  intros Ha Hd Hk.
-  destruct (dupdate_inv defaults [] (NoDup_nil _) eq_refl Hd) as [N1 S1].
-  destruct (dupdate_inv attrs _ N1 S1 Ha) as [N2 S2].
-  set (base := dupdate (dupdate [] defaults) attrs) in *.
-  destruct (append_spec (base ++ kwargs) [] (all_strv_app _ _ S2 Hk) eq_refl (NoDup_nil _))
-    as (d & D1 & D2 & D3 & D4).
-  exists d. repeat split; auto.
-  - unfold html_attrs, html_attrs_dict. fold base. now rewrite D1.
-  - intro k. rewrite D4. cbn [app]. rewrite texts_for_app, (texts_for_nodup k base N2).
-    unfold base. rewrite !dget_dupdate. cbn [dget].
-    destruct (dget k (rev attrs)); [reflexivity|]. destruct (dget k (rev defaults)); reflexivity.
-Qed.
-
-(* the strict variant (proposed repair): the FULL statement - whatever the names contain, either the text is
-   refused because an emitted name cannot be an attribute name, or it reads back exactly *)
-Lemma names_ok_guard d : forallb (fun kv => not_safe (snd kv)) d = true -> names_ok d = true ->
-  roundtrip_guard d = true.
-Proof.
-  unfold names_ok, roundtrip_guard. induction d as [|[k v] d IH]; [reflexivity|].
-  cbn [forallb fst snd]. intros H1 H2. apply andb_true_iff in H1 as [A1 A2]. apply andb_true_iff in H2 as [B1 B2].
-  rewrite (IH A2 B2), andb_true_r. destruct (rendered v); cbn [negb orb] in *; [now rewrite B1, A1|reflexivity].
-Qed.
-
-Lemma attrs_roundtrip_strict_lemma d : forallb (fun kv => not_safe (snd kv)) d = true ->
-  match attributes_to_string_strict d with
-  | Some out => parse_attrs out = Parsed (expected d)
-  | None => exists k v, In (k, v) d /\ rendered v = true /\ valid_name k = false
+  match html_attrs_dict attrs defaults kwargs with
+  | Some d => keys_nodup d /\
+              forall k, merged_value (olist (base_val attrs defaults k) ++ occ k kwargs) = Some (dget k d)
+  | None => exists k, merged_value (olist (base_val attrs defaults k) ++ occ k kwargs) = None
   end.
 Proof.
-  intro Hs. unfold attributes_to_string_strict. destruct (names_ok d) eqn:E.
-  - apply attrs_roundtrip_lemma. exact (names_ok_guard d Hs E).
-  - unfold names_ok in E. clear Hs. induction d as [|[k v] d IH]; [discriminate|].
-    cbn [forallb fst snd] in E. apply andb_false_iff in E as [E|E].
-    + exists k, v. split; [left; reflexivity|]. destruct (rendered v); cbn [negb orb] in E; [split; [reflexivity|exact E]|discriminate].
-    + destruct (IH E) as (k' & v' & I & R). exists k', v'. split; [right; exact I|exact R].
+  unfold html_attrs_dict. set (base := dupdate (dupdate [] defaults) attrs).
+  assert (N2 : keys_nodup base) by (apply dupdate_nodup, dupdate_nodup; constructor).
+  assert (B : forall k, occ k (base ++ kwargs) = olist (base_val attrs defaults k) ++ occ k kwargs).
+  { intro k. rewrite occ_app, (occ_nodup k base N2). unfold base, base_val. rewrite !dget_dupdate. cbn [dget].
+    destruct (dget k (rev attrs)); [reflexivity|]. destruct (dget k (rev defaults)); reflexivity. }
+  pose proof (append_combine (base ++ kwargs) [] (NoDup_nil _)) as H.
+  destruct (append_attributes (base ++ kwargs) []) as [d|].
+  - destruct H as [H1 H2]. split; [exact H1|]. intro k. rewrite <- B, <- combine_none. apply H2.
+  - destruct H as (k & H). exists k. rewrite <- B, <- combine_none. exact H.
+Qed.
+
+(* the same for string values, in the words of the statement: no failure, and the text of every name is the
+   base text followed by every keyword text, joined by single spaces *)
+Lemma merged_value_strings vs : forallb is_strv vs = true ->
+  exists o, merged_value vs = Some o /\ option_map text_of o = joined (map text_of vs).
+Proof.
+  intro H. destruct vs as [|v1 [|v2 r]]; [exists None; auto|exists (Some v1); auto|].
+  unfold merged_value. rewrite H. eexists. split; reflexivity.
+Qed.
+
+Lemma all_strv_dget k d v : all_strv d -> dget k d = Some v -> is_strv v = true.
+Proof.
+  unfold all_strv. induction d as [|[k' v'] d IH]; [discriminate|]. cbn [forallb snd dget]. intros H G.
+  apply andb_true_iff in H as [H1 H2]. destruct (str_eqb k (fst k')); [now injection G as <-|exact (IH H2 G)].
+Qed.
+
+Lemma all_strv_rev d : all_strv d -> all_strv (rev d).
+Proof.
+  unfold all_strv. intro H. rewrite forallb_forall in *. intros x I. apply H. now apply in_rev.
+Qed.
+
+Lemma all_strv_occ k d : all_strv d -> forallb is_strv (occ k d) = true.
+Proof.
+  unfold all_strv. induction d as [|[k' v'] d IH]; [reflexivity|]. cbn [forallb snd occ]. intro H.
+  apply andb_true_iff in H as [H1 H2]. destruct (str_eqb k (fst k')); cbn [forallb]; [rewrite H1|]; exact (IH H2).
+Qed.
+
+Lemma merge_order_strings_lemma attrs defaults kwargs :
+  all_strv attrs -> all_strv defaults -> all_strv kwargs ->
+  exists d, html_attrs_dict attrs defaults kwargs = Some d /\ keys_nodup d /\
+            forall k, option_map text_of (dget k d)
+                      = joined (map text_of (olist (base_val attrs defaults k)) ++ map text_of (occ k kwargs)).
+Proof.
+  intros Ha Hd Hk.
+  assert (S : forall k, forallb is_strv (olist (base_val attrs defaults k) ++ occ k kwargs) = true).
+  { intro k. rewrite forallb_app, (all_strv_occ k kwargs Hk), andb_true_r. unfold base_val.
+    destruct (dget k (rev attrs)) as [v|] eqn:E1.
+    - cbn. now rewrite (all_strv_dget _ _ _ (all_strv_rev _ Ha) E1).
+    - destruct (dget k (rev defaults)) as [v|] eqn:E2; [|reflexivity].
+      cbn. now rewrite (all_strv_dget _ _ _ (all_strv_rev _ Hd) E2). }
+  pose proof (merge_order_lemma attrs defaults kwargs) as M.
+  destruct (html_attrs_dict attrs defaults kwargs) as [d|].
+  - destruct M as [M1 M2]. exists d. repeat split; auto. intro k.
+    destruct (merged_value_strings _ (S k)) as (o & O1 & O2). rewrite M2 in O1. injection O1 as <-.
+    now rewrite O2, map_app.
+  - destruct M as (k & M). destruct (merged_value_strings _ (S k)) as (o & O1 & _). rewrite M in O1. discriminate.
+Qed.
+
+(* ================================================================================================ *)
+(* the tag level: repeated keywords, then the whole chain for the documented forms                   *)
+(* ================================================================================================ *)
+(* an extra keyword as written in the tag or brought by a spread: (key object, is identifier, scalar value) *)
+Notation kwt := ((str * bool) * bool * aval)%type (only parsing).
+Definition kwp (x : (str * bool) * bool * aval) : option ((str * bool) * bool) * tval :=
+  (Some (fst x), TS (snd x)).
+Definition kw_entry (x : (str * bool) * bool * aval) : (str * bool) * aval := (fst (fst x), snd x).
+
+(* what a keyword name ends up with after merge_repeated_kwargs: its only value, or str() of all joined by " " *)
+Definition kw_val (vs : list aval) : option aval :=
+  match vs with
+  | [] => None
+  | [v] => Some v
+  | _ => Some (VStr (join_sp (map text_of vs)))
+  end.
+
+Lemma later_vals_kw k r : later_vals k (map kwp r) = map TS (occ k (map kw_entry r)).
+Proof.
+  induction r as [|[[k' idf] v] r IH]; [reflexivity|].
+  cbn [map later_vals occ kwp kw_entry key_is fst snd]. destruct (str_eqb k (fst k')); cbn [map]; now rewrite IH.
+Qed.
+
+Lemma all_text_ts vs : all_text (map TS vs) = Some (map text_of vs).
+Proof. induction vs as [|v r IH]; [reflexivity|]. cbn [map all_text]. now rewrite IH. Qed.
+
+Lemma mem_str_cons k x l : mem_str k (x :: l) = str_eqb k x || mem_str k l.
+Proof. reflexivity. Qed.
+
+(* REPEATED KEYWORDS, any number and any pattern of repeats (interleaved with other keywords or not): the merged
+   list keeps every name once, no name of [seen], and gives each name its only value, or the str() of all its values
+   in the order written, joined by single spaces *)
+Lemma merge_repeated_kw kws : forall seen,
+  exists out, merge_repeated seen (map kwp kws) = Some (map kwp out) /\
+              keys_nodup (map kw_entry out) /\
+              (forall k, dget k (map kw_entry out)
+                         = if mem_str k seen then None else kw_val (occ k (map kw_entry kws))).
+Proof.
+  induction kws as [|[[k idf] v] r IH]; intro seen.
+  - exists []. repeat split; [constructor|]. intro k. now destruct (mem_str k seen).
+  - cbn [map kwp fst snd merge_repeated]. fold (kwp) in *.
+    change (map (fun x => (Some (fst x), TS (snd x))) r) with (map kwp r).
+    destruct (mem_str (fst k) seen) eqn:M.
+    + destruct (IH seen) as (out & O1 & O2 & O3). exists out. repeat split; auto.
+      intro k1. rewrite O3. destruct (mem_str k1 seen) eqn:M1; [reflexivity|].
+      cbn [map kw_entry occ fst snd]. destruct (str_eqb k1 (fst k)) eqn:E; [|reflexivity].
+      apply str_eqb_eq in E. subst k1. rewrite M in M1. discriminate.
+    + destruct (IH (fst k :: seen)) as (out & O1 & O2 & O3).
+      assert (Hn : ~ In (fst k) (map (fun kv => fst (fst kv)) (map kw_entry out))).
+      { apply dget_none_keys. rewrite O3, mem_str_cons, str_eqb_refl. reflexivity. }
+      assert (Hget : forall w k1, dget k1 (map kw_entry (((k, idf), w) :: out))
+                     = if str_eqb k1 (fst k) then Some w else dget k1 (map kw_entry out)).
+      { intros w k1. reflexivity. }
+      assert (Hnd : forall w, keys_nodup (map kw_entry (((k, idf), w) :: out))).
+      { intro w. unfold keys_nodup. cbn [map kw_entry fst snd]. constructor; assumption. }
+      rewrite later_vals_kw.
+      destruct (occ (fst k) (map kw_entry r)) as [|v2 l] eqn:L.
+      * cbn [map]. rewrite O1. exists (((k, idf), v) :: out). split; [reflexivity|]. split; [apply Hnd|].
+        intro k1. rewrite Hget, O3, mem_str_cons. cbn [map kw_entry occ fst snd].
+        destruct (str_eqb k1 (fst k)) eqn:E.
+        -- apply str_eqb_eq in E. subst k1. rewrite M, L. reflexivity.
+        -- reflexivity.
+      * change (TS v :: map TS (v2 :: l)) with (map TS (v :: v2 :: l)). cbn [map].
+        change (TS v :: TS v2 :: map TS l) with (map TS (v :: v2 :: l)).
+        rewrite all_text_ts, O1.
+        exists (((k, idf), VStr (join_sp (map text_of (v :: v2 :: l)))) :: out).
+        split; [reflexivity|]. split; [apply Hnd|].
+        intro k1. rewrite Hget, O3, mem_str_cons. cbn [map kw_entry occ fst snd].
+        destruct (str_eqb k1 (fst k)) eqn:E.
+        -- apply str_eqb_eq in E. subst k1. rewrite M, L. reflexivity.
+        -- reflexivity.
+Qed.
+
+(* keywords that are neither aggregate keys (attrs:x) nor the two parameters of the tag *)
+Definition extra_kw (x : (str * bool) * bool * aval) : bool :=
+  negb (is_agg (fst (fst (fst x)))) && negb (str_eqb (fst (fst (fst x))) k_attrs)
+  && negb (str_eqb (fst (fst (fst x))) k_defaults).
+
+Lemma agg_loop_plain kws n : forallb extra_kw kws = true ->
+  agg_loop (map kwp kws) n = Some (map kwp kws, map (fun x => fst (fst (fst x))) kws, n).
+Proof.
+  induction kws as [|[[k idf] v] r IH]; intro H; [reflexivity|].
+  cbn [forallb] in H. apply andb_true_iff in H as [H1 H2]. unfold extra_kw in H1. cbn [fst] in H1.
+  apply andb_true_iff in H1 as [H1 _]. apply andb_true_iff in H1 as [H1 _]. apply negb_true_iff in H1.
+  cbn [map kwp fst snd agg_loop]. rewrite H1.
+  change (map (fun x => (Some (fst x), TS (snd x))) r) with (map kwp r). now rewrite (IH H2).
+Qed.
+
+Lemma pas_kw kws b : positional_after_special (map kwp kws) b = false.
+Proof.
+  revert b. induction kws as [|[[k idf] v] r IH]; intro b; [reflexivity|]. cbn [map kwp fst snd positional_after_special].
+  apply IH.
+Qed.
+
+Definition idents (kws : list ((str * bool) * bool * aval)) := filter (fun x => snd (fst x)) kws.
+Definition specials (kws : list ((str * bool) * bool * aval)) := filter (fun x => negb (snd (fst x))) kws.
+Definition kw_tentry (x : (str * bool) * bool * aval) : (str * bool) * tval := (fst (fst x), TS (snd x)).
+
+Lemma bind_kw kws : forallb extra_kw kws = true -> forall b,
+  exists b', bind (map kwp kws) b = Some b' /\ b_attrs b' = b_attrs b /\ b_defaults b' = b_defaults b /\
+             b_kw b' = b_kw b ++ map kw_tentry (idents kws) /\
+             b_special b' = b_special b ++ map kw_tentry (specials kws).
+Proof.
+  induction kws as [|[[k idf] v] r IH]; intros H b.
+  - exists b. cbn. rewrite !app_nil_r. auto.
+  - cbn [forallb] in H. apply andb_true_iff in H as [H1 H2]. unfold extra_kw in H1. cbn [fst] in H1.
+    apply andb_true_iff in H1 as [H1 Hd]. apply andb_true_iff in H1 as [_ Ha].
+    apply negb_true_iff in Ha. apply negb_true_iff in Hd.
+    cbn [map kwp fst snd bind]. change (map (fun x => (Some (fst x), TS (snd x))) r) with (map kwp r).
+    destruct idf.
+    + rewrite Ha, Hd.
+      destruct (IH H2 {| b_args := b_args b; b_attrs := b_attrs b; b_defaults := b_defaults b;
+                         b_kw := b_kw b ++ [(k, TS v)]; b_special := b_special b; b_seen_kw := true |})
+        as (b' & B1 & B2 & B3 & B4 & B5).
+      exists b'. cbn [b_attrs b_defaults b_kw b_special] in *. repeat split; auto.
+      rewrite B4, <- app_assoc. reflexivity.
+    + destruct (IH H2 {| b_args := b_args b; b_attrs := b_attrs b; b_defaults := b_defaults b;
+                         b_kw := b_kw b; b_special := b_special b ++ [(k, TS v)]; b_seen_kw := b_seen_kw b |})
+        as (b' & B1 & B2 & B3 & B4 & B5).
+      exists b'. cbn [b_attrs b_defaults b_kw b_special] in *. repeat split; auto.
+      rewrite B5, <- app_assoc. reflexivity.
+Qed.
+
+Lemma as_scalars_kw l : as_scalars (map kw_tentry l) = Some (map kw_entry l).
+Proof. induction l as [|[[k idf] v] r IH]; [reflexivity|]. cbn [map kw_tentry kw_entry as_scalars fst snd]. now rewrite IH. Qed.
+
+(* moving the non-identifier keywords behind the others changes neither the names nor what each name holds *)
+Lemma dget_partition k kws : keys_nodup (map kw_entry kws) ->
+  dget k (map kw_entry (idents kws) ++ map kw_entry (specials kws)) = dget k (map kw_entry kws).
+Proof.
+  unfold keys_nodup. induction kws as [|[[k' idf] v] r IH]; [reflexivity|].
+  cbn [map kw_entry fst snd]. intro ND. inversion ND as [|? ? Hn ND']; subst.
+  unfold idents, specials. cbn [filter fst snd]. fold (idents r) (specials r).
+  destruct idf; cbn [negb map kw_entry fst snd app dget].
+  - destruct (str_eqb k (fst k')); [reflexivity|exact (IH ND')].
+  - rewrite dget_app. cbn [map kw_entry fst snd dget]. destruct (str_eqb k (fst k')) eqn:E.
+    + apply str_eqb_eq in E. subst k.
+      assert (G : dget (fst k') (map kw_entry (idents r)) = None).
+      { apply dget_none_keys. intro I. apply Hn. rewrite !map_map in *. apply in_map_iff in I as (x & X1 & X2).
+        apply in_map_iff. exists x. split; [exact X1|]. unfold idents in X2. apply filter_In in X2. tauto. }
+      now rewrite G.
+    + rewrite <- (IH ND'), dget_app. reflexivity.
+Qed.
+
+Lemma NoDup_insert {A} (l1 l2 : list A) a : NoDup (l1 ++ l2) -> ~ In a (l1 ++ l2) -> NoDup (l1 ++ a :: l2).
+Proof.
+  induction l1 as [|x l1 IH]; cbn [app]; intros H Ha; [constructor; assumption|].
+  inversion H as [|? ? Hx Hl]; subst. constructor.
+  - intro K. apply in_app_or in K as [K|[K|K]].
+    + apply Hx, in_or_app. left. exact K.
+    + subst. apply Ha. left. reflexivity.
+    + apply Hx, in_or_app. right. exact K.
+  - apply IH; [exact Hl|]. intro K. apply Ha. right. exact K.
+Qed.
+
+Lemma partition_nodup kws : keys_nodup (map kw_entry kws) ->
+  keys_nodup (map kw_entry (idents kws) ++ map kw_entry (specials kws)).
+Proof.
+  unfold keys_nodup. induction kws as [|[[k' idf] v] r IH]; [constructor|].
+  cbn [map kw_entry fst snd]. intro ND. inversion ND as [|? ? Hn ND']; subst.
+  assert (Hi : forall x, In x (map (fun kv => fst (fst kv)) (map kw_entry (idents r)
+                              ++ map kw_entry (specials r))) -> In x (map (fun kv => fst (fst kv)) (map kw_entry r))).
+  { intros x I. rewrite map_app in I. apply in_app_or in I. rewrite !map_map in *.
+    destruct I as [I|I]; apply in_map_iff in I as (y & Y1 & Y2); apply in_map_iff; exists y; split; auto;
+      [unfold idents in Y2|unfold specials in Y2]; apply filter_In in Y2; tauto. }
+  unfold idents, specials. cbn [filter fst snd]. fold (idents r) (specials r).
+  destruct idf; cbn [negb map kw_entry fst snd app].
+  - constructor; [intro I; exact (Hn (Hi _ I))|exact (IH ND')].
+  - specialize (IH ND'). rewrite map_app in *. cbn [map fst].
+    cbn [kw_entry fst snd]. apply NoDup_insert; [exact IH|]. intro I. apply Hn, Hi. exact I.
+Qed.
+
+(* THE WHOLE TAG for the documented form `{% html_attrs attrs defaults k=v ... %}` (both dictionaries positional;
+   any list of extra keywords - repeated in any pattern, identifiers or not, written in the tag or spread):
+   it behaves as html_attrs on the two dictionaries and a keyword dictionary holding, per name, kw_val of the
+   values written for that name *)
+Lemma tag_chain a d kws : forallb extra_kw kws = true ->
+  exists kw, html_attrs_tag ((None, TD a) :: (None, TD d) :: map kwp kws) = html_attrs a d kw /\
+             keys_nodup kw /\ forall k, dget k kw = kw_val (occ k (map kw_entry kws)).
+Proof.
+  intro H. destruct (merge_repeated_kw kws []) as (out & O1 & O2 & O3).
+  assert (Hout : forallb extra_kw out = true).
+  { rewrite forallb_forall. intros x I. rewrite forallb_forall in H.
+    assert (G : dget (fst (fst (fst x))) (map kw_entry out) <> None).
+    { intro G. apply dget_none_keys in G. apply G. rewrite map_map. apply in_map_iff. exists x. auto. }
+    rewrite O3 in G. cbn [mem_str] in G.
+    assert (exists y, In y kws /\ fst (fst (fst y)) = fst (fst (fst x))) as (y & Y1 & Y2).
+    { clear - G. induction kws as [|[[k' i'] v'] r IH]; [exfalso; apply G; reflexivity|].
+      cbn [map kw_entry occ fst snd] in G. destruct (str_eqb (fst (fst (fst x))) (fst k')) eqn:E.
+      - apply str_eqb_eq in E. exists ((k', i'), v'). split; [left; reflexivity|]. cbn. auto.
+      - destruct (IH G) as (y & Y1 & Y2). exists y. split; [right; exact Y1|exact Y2]. }
+    specialize (H y Y1). unfold extra_kw in *. rewrite Y2 in H. exact H. }
+  exists (map kw_entry (idents out) ++ map kw_entry (specials out)). split; [|split].
+  - unfold html_attrs_tag. cbn [merge_repeated]. rewrite O1. cbn [option_map].
+    unfold aggregate. cbn [agg_loop]. rewrite (agg_loop_plain out [] Hout). cbn [agg_finish]. rewrite app_nil_r.
+    cbn [positional_after_special orb]. rewrite pas_kw.
+    cbn [bind bound0 b_seen_kw b_args b_attrs b_defaults b_kw b_special].
+    destruct (bind_kw out Hout {| b_args := [TD a; TD d]; b_attrs := Some (TD a); b_defaults := Some (TD d);
+                                  b_kw := []; b_special := []; b_seen_kw := false |})
+      as (b' & B1 & B2 & B3 & B4 & B5).
+    rewrite B1, B2, B3, B4, B5. cbn [b_attrs b_defaults b_kw b_special as_dict app].
+    rewrite <- map_app, as_scalars_kw, map_app. reflexivity.
+  - apply partition_nodup. exact O2.
+  - intro k. rewrite (dget_partition k out O2), O3. reflexivity.
+Qed.
+
+(* TAG-LEVEL MERGE ORDER: outcome of the tag in terms of what was written *)
+Definition tag_spec (a d : list ((str * bool) * aval)) (kws : list ((str * bool) * bool * aval)) (k : str)
+  : option (option aval) :=
+  merged_value (olist (base_val a d k) ++ olist (kw_val (occ k (map kw_entry kws)))).
+
+Lemma tag_merge_order_lemma a d kws : forallb extra_kw kws = true ->
+  match html_attrs_tag ((None, TD a) :: (None, TD d) :: map kwp kws) with
+  | Out s => exists f, keys_nodup f /\ (forall k, tag_spec a d kws k = Some (dget k f)) /\
+                       attributes_to_string f = Some s
+  | ErrValue => exists f, keys_nodup f /\ (forall k, tag_spec a d kws k = Some (dget k f)) /\
+                          attributes_to_string f = None
+  | ErrType => exists k, tag_spec a d kws k = None
+  | _ => False
+  end.
+Proof.
+  intro H. destruct (tag_chain a d kws H) as (kw & -> & K1 & K2).
+  unfold html_attrs. pose proof (merge_order_lemma a d kw) as M.
+  assert (S : forall k, merged_value (olist (base_val a d k) ++ occ k kw) = tag_spec a d kws k).
+  { intro k. unfold tag_spec. now rewrite (occ_nodup k kw K1), K2. }
+  destruct (html_attrs_dict a d kw) as [f|].
+  - destruct M as [M1 M2].
+    destruct (attributes_to_string f) as [s|] eqn:E; exists f; repeat split; auto; intro k; rewrite <- S; apply M2.
+  - destruct M as (k & M). exists k. now rewrite <- S.
 Qed.
